@@ -335,7 +335,17 @@ func (p *pp) unknownType(v reflect.Value) {
 	p.buf.writeByte('?')
 }
 
+// cancelWrap is called for every %w that is not rendered as the %v of an
+// error operand: HelperForErrorf then returns no error.
+func (p *pp) cancelWrap(verb rune) {
+	if verb == 'w' {
+		p.wrappedErr = nil
+		p.wrapErrs = false
+	}
+}
+
 func (p *pp) badVerb(verb rune) {
+	p.cancelWrap(verb)
 	p.erroring = true
 	p.buf.writeString(percentBangString)
 	p.buf.writeRune(verb)
@@ -1083,12 +1093,14 @@ func (p *pp) argNumber(
 }
 
 func (p *pp) badArgNum(verb rune) {
+	p.cancelWrap(verb)
 	p.buf.writeString(percentBangString)
 	p.buf.writeRune(verb)
 	p.buf.writeString(badIndexString)
 }
 
 func (p *pp) missingArg(verb rune) {
+	p.cancelWrap(verb)
 	p.buf.writeString(percentBangString)
 	p.buf.writeRune(verb)
 	p.buf.writeString(missingString)
